@@ -14,7 +14,7 @@ From SCMO Require Import Lib.StatusLang Gen.GenStatus Model.C20 Proofs.C20 Proof
    at the end of every run, however and wherever it was interrupted, in both pipelines *)
 Theorem C20_never_ok_early : forall cnt ch f w0 r s,
   invb w0 = true -> lost w0 = false ->
-  run pipeline cnt ch f w0 = (r, s) ->
+  run_prog pipeline cnt ch f w0 = (r, s) ->
   st (wd s) = SOk -> ex (wd s) = true /\ co (wd s) = true /\ so (wd s) = true /\ ix (wd s) = true.
 Proof. exact never_ok_early. Qed.
 Print Assumptions C20_never_ok_early.
@@ -22,7 +22,7 @@ Print Assumptions C20_never_ok_early.
 (* the same in the words of the statement: n molecules, crash point k *)
 Theorem C20_never_ok_early_crash_at : forall cnt ch k w0 r s,
   invb w0 = true -> lost w0 = false ->
-  run pipeline cnt ch (crash_at k) w0 = (r, s) ->
+  run_prog pipeline cnt ch (crash_at k) w0 = (r, s) ->
   st (wd s) = SOk -> ex (wd s) = true /\ co (wd s) = true /\ so (wd s) = true /\ ix (wd s) = true.
 Proof. exact never_ok_early_crash_at. Qed.
 Print Assumptions C20_never_ok_early_crash_at.
@@ -31,7 +31,7 @@ Print Assumptions C20_never_ok_early_crash_at.
    removal) ends with status Ok and a complete, sorted, indexed output *)
 Theorem C20_ok_at_end : forall cnt ch f w0 s,
   lost w0 = false ->
-  run pipeline cnt ch f w0 = (RNormal, s) ->
+  run_prog pipeline cnt ch f w0 = (RNormal, s) ->
   st (wd s) = SOk /\ ex (wd s) = true /\ co (wd s) = true /\ so (wd s) = true /\ ix (wd s) = true.
 Proof. exact ok_at_end. Qed.
 Print Assumptions C20_ok_at_end.
@@ -41,7 +41,7 @@ Print Assumptions C20_ok_at_end.
 Theorem C20_fail_not_ok : forall cnt ch f w0 r s,
   ch id_ch_tempfiles = false ->
   st w0 <> SOk ->
-  run pipeline cnt ch f w0 = (r, s) ->
+  run_prog pipeline cnt ch f w0 = (r, s) ->
   r <> RNormal -> st (wd s) <> SOk.
 Proof. exact fail_not_ok. Qed.
 Print Assumptions C20_fail_not_ok.
@@ -49,21 +49,21 @@ Print Assumptions C20_fail_not_ok.
 (* a worker of the multiprocess pipeline that returns has written a complete sorted indexed BAM *)
 Theorem C20_worker_complete : forall cnt ch f w0 s,
   lost w0 = false ->
-  run worker_body cnt ch f w0 = (RNormal, s) ->
+  run_prog worker_body cnt ch f w0 = (RNormal, s) ->
   ex (wd s) = true /\ co (wd s) = true /\ so (wd s) = true /\ ix (wd s) = true.
 Proof. exact worker_complete. Qed.
 Print Assumptions C20_worker_complete.
 
-(* non-vacuity: standard runs of both pipelines over 3 iterations of every loop complete; a crash at
-   step 40 of the single-process run over a previous successful output raises and does not
-   leave the success marker *)
+(* non-vacuity: standard runs of both pipelines over 3 iterations of every loop complete; some crash point
+   among the first 200 steps of the single-process run over a previous successful output raises and
+   does not leave the success marker *)
 Example C20_runs :
-  (let '(r, s) := run pipeline (fun _ => 3) (ch_of ch_true_single) no_fault w_fresh in
+  (let '(r, s) := run_prog pipeline (fun _ => 3) (ch_of ch_true_single) no_fault w_fresh in
    (r, st (wd s), all_four (wd s))) = (RNormal, SOk, true) /\
-  (let '(r, s) := run pipeline (fun _ => 3) (ch_of ch_true_multi) no_fault w_fresh in
+  (let '(r, s) := run_prog pipeline (fun _ => 3) (ch_of ch_true_multi) no_fault w_fresh in
    (r, st (wd s), all_four (wd s))) = (RNormal, SOk, true) /\
-  (let '(r, s) := run pipeline (fun _ => 3) (ch_of ch_true_single) (crash_at 40) w_prev_ok in
-   (r, negb (status_eqb (st (wd s)) SOk))) = (RExc, true) /\
+  existsb (fun k => let '(r, s) := run_prog pipeline (fun _ => 3) (ch_of ch_true_single) (crash_at k) w_prev_ok in
+                    match r with RExc => negb (status_eqb (st (wd s)) SOk) | _ => false end) (seq 0 200) = true /\
   invb w_prev_ok = true /\ invb w_fresh = true.
 Proof. vm_compute. repeat split. Qed.
 Print Assumptions C20_runs.
